@@ -54,7 +54,7 @@ class Gen:
         if k < 0.80 and self.allow_last:
             return ("last",)
         if k < 0.86:
-            return ("chr", r.choice("ab0 z~"))
+            return ("chr", r.choice("ab0 z~'\\\n\t\r\0\b\"|"))     # (the escaped forms as well)
         if k < 0.92 and d < 3:
             return ("neg", self.int_atom(d + 1))
         return ("lit", r.randrange(10))
@@ -101,7 +101,7 @@ def show(e, ctx_level=0, right=False):
     if k == "last":
         return "$last"
     if k == "chr":
-        return f"'{e[1]}'"
+        return "'" + {"'": "\\'", "\\": "\\\\", "\n": "\\n", "\t": "\\t", "\r": "\\r", "\0": "\\0", "\b": "\\b"}.get(e[1], e[1]) + "'"
     if k == "par":
         return "(" + show(e[1]) + ")"
     if k in ("not", "neg"):
